@@ -1,32 +1,37 @@
 ----------------------------- MODULE C08_Trace -----------------------------
+(* C08, code -> spec: total trace specification.                                          *)
+(* One behaviour per recorded history.  The recorded operations are replayed through       *)
+(* ObjModel's rules: the reference state is ObjModel's own m_st (so ModelInv and Frame are *)
+(* evaluated on every state of every observed execution), the as-is state t_dev follows    *)
+(* the deviations named in the record, and t_alt[d] follows all of them but d (used only   *)
+(* to name the deviation that is necessary to explain a mismatch).                         *)
+(* Every recorded step outcome and observation is compared with the predictions:           *)
+(*   = reference                      -> pass (even if a deviation predicted otherwise)    *)
+(*   # reference, = as-is prediction  -> known, named deviation                            *)
+(*   otherwise                        -> violation (clause = the observation, step index)  *)
+(* A mismatch never stops the replay: it is recorded, the engine's outcome is adopted      *)
+(* (a step that threw although no model throws had no effect) and the replay continues.    *)
 EXTENDS ObjModel, Json, IOUtils, SequencesExt
 
-\* ==============================================================================================
-\* C -> S : total trace specification.  One behaviour per recorded history: the recorded operations
-\* are replayed through ObjModel's rules twice - reference (no deviation) and as-is (the deviations
-\* named in the record) - and every recorded step outcome and observation is compared with the
-\* prediction.  A mismatch never stops the replay: it is recorded (step, observation, clause) and
-\* the replay continues; ObjModel's invariants are evaluated on every reference state reached.
 Recs == ndJsonDeserialize(IOEnv.OBS_FILE)       \* [id, dv, h, steps : Seq([out, obs]), cut]
-VARIABLES t_rec, t_l, t_dev, t_taint, t_mis, t_cnt, t_status     \* the reference state is ObjModel's m_st
-t_vars == <<t_rec, t_l, t_dev, t_taint, t_mis, t_cnt, t_status>>
+VARIABLES t_rec, t_l, t_dev, t_alt, t_mis, t_cnt, t_status
+t_vars == <<t_rec, t_l, t_dev, t_alt, t_mis, t_cnt, t_status>>
 SeqSet(sq) == {sq[j] : j \in 1..Len(sq)}
 DvOf(r) == SeqSet(r.dv)
 
 OutStr(out) == IF out = "ok" THEN "ok" ELSE "!" \o out
 NeedsRecv(o) == o.op \in {"set", "del", "def", "setproto"}
 DevStep(st, dv, o) == IF NeedsRecv(o) /\ ~Alloc(st, o.x) THEN R(st, "TypeError") ELSE Step(st, dv, o)
-StepDevs(st, dv, o) == {d \in dv : DevStep(st, dv \ {d}, o) # DevStep(st, dv, o)}
-ObsDevs(st, dv, ob) == {d \in dv : Observe(st, dv \ {d}, ob) # Observe(st, dv, ob)}
+Explains(st, dv, ob, act) == /\ (ob.o = "fproto" \/ Alloc(st, ob.x))
+                             /\ SameObs(st, dv, ob, Observe(st, dv, ob), act)
+AnyOf(S) == CHOOSE d \in S : TRUE
 
-\* verdict of one recorded observation: <<"pass">> | <<"known", dev>> | <<"violation", "">>
-ObsVerdict(sr, sd, dv, taint, ob, act) ==
+\* verdict of one recorded observation: <<"pass", "">> | <<"known", dev>> | <<"violation", "">>
+ObsVerdict(sr, sd, alt, dv, ob, act) ==
   IF SameObs(sr, {}, ob, Observe(sr, {}, ob), act) THEN <<"pass", "">>
-  ELSE IF Alloc(sd, IF ob.x = "" THEN "OP" ELSE ob.x) /\ SameObs(sd, dv, ob, Observe(sd, dv, ob), act)
-       THEN LET loc == ObsDevs(sd, dv, ob)
-            IN IF loc # {} THEN <<"known", CHOOSE d \in loc : TRUE>>
-               ELSE IF taint # {} THEN <<"known", CHOOSE d \in taint : TRUE>>
-               ELSE <<"violation", "">>
+  ELSE IF Explains(sd, dv, ob, act)
+       THEN LET need == {d \in dv : ~Explains(alt[d], dv \ {d}, ob, act)}      \* deviations the explanation cannot do without
+            IN <<"known", IF need # {} THEN AnyOf(need) ELSE AnyOf(dv)>>
   ELSE <<"violation", "">>
 
 \* the record is copied into the state: Recs is a Java-backed operator that TLC re-evaluates at every use
@@ -34,13 +39,16 @@ TInit == /\ LET all == Recs IN t_rec \in {all[j] : j \in 1..Len(all)}
          /\ t_l = 1
          /\ MInit
          /\ t_dev = State0D(DvOf(t_rec))
-         /\ t_taint = DvOf(t_rec) \cap {"Dev_FnProtoNoObjectProto"}
+         /\ t_alt = [d \in DvOf(t_rec) |-> State0D(DvOf(t_rec) \ {d})]
          /\ t_mis = <<>>
          /\ t_cnt = [steps |-> 0, obs |-> 0, known |-> 0, viol |-> 0]
          /\ t_status = "run"
 
 MisRec(l, j, v, ob, exp, act) == [l |-> l, j |-> j, v |-> v[1], dev |-> v[2], ob |-> ob, exp |-> exp, act |-> act]
 NoOb == Ob("step", "", "", "")
+\* keep every violation (up to a cap) and the first example of each known deviation
+Keep(mis, rec) == IF rec.v = "violation" THEN (IF Len(mis) < 40 THEN Append(mis, rec) ELSE mis)
+                  ELSE IF \E m \in 1..Len(mis) : mis[m].dev = rec.dev THEN mis ELSE Append(mis, rec)
 
 TStep ==
   LET rec == t_rec
@@ -48,32 +56,39 @@ TStep ==
       o == rec.h[t_l]
       a == rec.steps[t_l]
   IN IF ~Applicable(m_st, o, t_l)
-     THEN /\ t_status' = "inapplicable" /\ UNCHANGED <<t_rec, t_l, t_dev, t_taint, t_mis, t_cnt, m_vars>>
+     THEN /\ t_status' = "inapplicable" /\ UNCHANGED <<t_rec, t_l, t_dev, t_alt, t_mis, t_cnt, m_vars>>
      ELSE
        LET rr == Step(m_st, {}, o)
            rd == DevStep(t_dev, dv, o)
-           fired == StepDevs(t_dev, dv, o)
+           ra == [d \in dv |-> DevStep(t_alt[d], dv \ {d}, o)]
            sv == IF a.out = OutStr(rr.out) THEN <<"pass", "">>
                  ELSE IF a.out = OutStr(rd.out)
-                      THEN (IF fired # {} THEN <<"known", CHOOSE d \in fired : TRUE>>
-                            ELSE IF t_taint # {} THEN <<"known", CHOOSE d \in t_taint : TRUE>> ELSE <<"violation", "">>)
+                      THEN LET need == {d \in dv : a.out # OutStr(ra[d].out)}
+                           IN <<"known", IF need # {} THEN AnyOf(need) ELSE AnyOf(dv)>>
                  ELSE <<"violation", "">>
            \* adopt: when the engine threw although neither model does, the step had no effect
-           nr == IF sv[1] = "violation" /\ a.out # "ok" THEN m_st ELSE rr.st
-           nd == IF sv[1] = "violation" /\ a.out # "ok" THEN t_dev ELSE rd.st
-           nt == t_taint \cup fired
-           J == {j \in 1..Len(a.obs) : Observable(nr, Battery[j])}
-           vd == [j \in J |-> ObsVerdict(nr, nd, dv, nt, Battery[j], a.obs[j])]
-           bad == {j \in J : vd[j][1] # "pass"}
-           badseq == SetToSortSeq(bad, <)
-           newmis == (IF sv[1] = "pass" THEN <<>> ELSE <<MisRec(t_l, 0, sv, NoOb, <<OutStr(rr.out)>>, <<a.out>>)>>)
-                     \o [m \in 1..Len(badseq) |-> MisRec(t_l, badseq[m], vd[badseq[m]], Battery[badseq[m]],
-                                                         Observe(nr, {}, Battery[badseq[m]]), a.obs[badseq[m]])]
-           nk == Cardinality({j \in bad : vd[j][1] = "known"}) + (IF sv[1] = "known" THEN 1 ELSE 0)
-           nv == Cardinality({j \in bad : vd[j][1] = "violation"}) + (IF sv[1] = "violation" THEN 1 ELSE 0)
-       IN /\ m_st' = nr /\ m_prev' = m_st /\ m_hist' = Append(m_hist, o) /\ t_dev' = nd /\ t_taint' = nt
-          /\ t_mis' = IF Len(t_mis) < 60 THEN t_mis \o newmis ELSE t_mis
-          /\ t_cnt' = [steps |-> t_cnt.steps + 1, obs |-> t_cnt.obs + Cardinality(J),
+           noeff == sv[1] = "violation" /\ a.out # "ok"
+           nr == IF noeff THEN m_st ELSE rr.st
+           nd == IF noeff THEN t_dev ELSE rd.st
+           na == [d \in dv |-> IF noeff THEN t_alt[d] ELSE ra[d].st]
+           mis0 == IF sv[1] = "pass" THEN t_mis ELSE Keep(t_mis, MisRec(t_l, 0, sv, NoOb, <<OutStr(rr.out)>>, <<a.out>>))
+           \* one pass over the recorded observations (FoldLeft is iterative; function-valued LETs are re-evaluated per use)
+           acc0 == [mis |-> mis0, nobs |-> 0, nk |-> 0, nv |-> 0]
+           res == FoldLeft(LAMBDA acc, j :
+                     IF ~Observable(nr, Battery[j]) THEN acc
+                     ELSE LET v == ObsVerdict(nr, nd, na, dv, Battery[j], a.obs[j])
+                          IN IF v[1] = "pass" THEN [acc EXCEPT !.nobs = acc.nobs + 1]
+                             ELSE [mis |-> Keep(acc.mis, MisRec(t_l, j, v, Battery[j], Observe(nr, {}, Battery[j]), a.obs[j])),
+                                   nobs |-> acc.nobs + 1,
+                                   nk |-> acc.nk + (IF v[1] = "known" THEN 1 ELSE 0),
+                                   nv |-> acc.nv + (IF v[1] = "violation" THEN 1 ELSE 0)],
+                     acc0, [j \in 1..Len(a.obs) |-> j])
+           nk == res.nk + (IF sv[1] = "known" THEN 1 ELSE 0)
+           nv == res.nv + (IF sv[1] = "violation" THEN 1 ELSE 0)
+       IN /\ m_st' = nr /\ m_prev' = m_st /\ m_hist' = Append(m_hist, o)
+          /\ t_dev' = nd /\ t_alt' = na
+          /\ t_mis' = res.mis
+          /\ t_cnt' = [steps |-> t_cnt.steps + 1, obs |-> t_cnt.obs + res.nobs,
                        known |-> t_cnt.known + nk, viol |-> t_cnt.viol + nv]
           /\ t_l' = t_l + 1
           /\ t_status' = IF t_l = Len(rec.steps) THEN "done" ELSE "run"
@@ -81,10 +96,9 @@ TStep ==
 
 TNext == /\ t_status = "run"
          /\ IF t_l > Len(t_rec.steps)
-            THEN t_status' = "done" /\ UNCHANGED <<t_rec, t_l, t_dev, t_taint, t_mis, t_cnt, m_vars>>
+            THEN t_status' = "done" /\ UNCHANGED <<t_rec, t_l, t_dev, t_alt, t_mis, t_cnt, m_vars>>
             ELSE TStep
 TReport == t_status = "run" \/
-           PrintT(ToJson([id |-> t_rec.id, status |-> t_status, cut |-> t_rec.cut, cnt |-> t_cnt,
-                          mis |-> t_mis, taint |-> t_taint]))
+           PrintT(ToJson([id |-> t_rec.id, status |-> t_status, at |-> t_l, cut |-> t_rec.cut, cnt |-> t_cnt, mis |-> t_mis]))
 TInv == ModelInv /\ Frame
 =============================================================================
